@@ -188,7 +188,7 @@ PROPS = {
         assumptions=["VerifyAgainstTX reads only the call data (destination / chain id / sender of the remote tx are not part of the property)", "update-valset / handover / upload call data carries no message id (compass ABI): twin messages of identical content are interchangeable (Props/C07.md finding 6; theorems what_the_calldata_binds, calldata_does_not_identify_the_message)"],
     ),
     "C03": dict(
-        lean_modules=["PalomaModel.Props.C03", "PalomaModel.Props.Translated.C03"], gen=["Auth.lean", "Translated.lean"],
+        lean_modules=["PalomaModel.Props.C03", "PalomaModel.Props.Translated.C03", "PalomaModel.Props.Consts.C03"], gen=["Auth.lean", "Translated.lean", "ConstTable.lean"],
         harness_test="TestC03",
         n_quick=700, n_thorough=1500, thorough_seeds=6, timeout_quick=900,
         spec_ops=["dnh", "cbh", "lnh"],  # directed histories: denom hand-over, batch-confirmation attempts, light-node licences / client records
